@@ -54,7 +54,7 @@ func main() {
 		Rule     string           `json:"rule"`
 		Exhaust  bool             `json:"exhaustive,omitempty"`
 		Complete bool             `json:"complete"`
-		hashes   map[uint64]struct{}
+		hashes   []uint64
 		samples  []json.RawMessage
 	}
 	subs := map[string]*subAgg{}
@@ -76,7 +76,7 @@ func main() {
 		}
 		a := subs[key]
 		if a == nil {
-			a = &subAgg{Classes: map[string]int64{}, Extra: map[string]any{}, Rule: s.Rule, hashes: map[uint64]struct{}{}, Complete: true, Exhaust: s.Exhaust}
+			a = &subAgg{Classes: map[string]int64{}, Extra: map[string]any{}, Rule: s.Rule, Complete: true, Exhaust: s.Exhaust}
 			subs[key] = a
 			order = append(order, key)
 		}
@@ -106,7 +106,7 @@ func main() {
 		hb, err := os.ReadFile(strings.TrimSuffix(f, ".json") + ".hashes")
 		if err == nil {
 			for i := 0; i+8 <= len(hb); i += 8 {
-				a.hashes[binary.LittleEndian.Uint64(hb[i:])] = struct{}{}
+				a.hashes = append(a.hashes, binary.LittleEndian.Uint64(hb[i:]))
 			}
 		}
 	}
@@ -119,7 +119,12 @@ func main() {
 	exhaustive := len(order) > 0
 	for _, k := range order {
 		a := subs[k]
-		a.Distinct = len(a.hashes)
+		sort.Slice(a.hashes, func(i, j int) bool { return a.hashes[i] < a.hashes[j] })
+		for i, h := range a.hashes {
+			if i == 0 || h != a.hashes[i-1] {
+				a.Distinct++
+			}
+		}
 		evals += a.Evals
 		distinct += a.Distinct
 		discards += a.Discards
